@@ -103,7 +103,12 @@ static void ares_llist_attach_at(ares_llist_t            *list,
     case ARES__LLIST_INSERT_BEFORE:
       node->next = at;
       node->prev = at->prev;
-      at->prev   = node;
+      /* at is not the head here (handled above), so it has a predecessor
+       * whose forward link must be redirected as well */
+      if (at->prev) {
+        at->prev->next = node;
+      }
+      at->prev = node;
       break;
   }
   if (list->tail == NULL) {
